@@ -220,3 +220,33 @@ func VerifC11_type2_fixed_blind() {
 		vReach("two-blinds")
 	}
 }
+
+// C01 (type 2, two runs in flight): see the type-5 harness of the same name
+func VerifC01_type2_two_outstanding_runs() {
+	vUnwind(8)
+	issuer := t2Issuer()
+	mk := func(tag string) BasicPublicTokenRequestState {
+		st, err := NewBasicPublicClient().CreateTokenRequest(vBytesC("challenge"+tag, 0, 1), vBytes("nonce"+tag, 32, 32), issuer.TokenKeyID(), issuer.TokenKey())
+		vAssume(err == nil)
+		return st
+	}
+	st1, st2 := mk("1"), mk("2")
+	resp1, err := issuer.Evaluate(st1.Request())
+	vAssert(err == nil, "first-evaluates")
+	resp2, err2 := issuer.Evaluate(st2.Request())
+	vAssert(err2 == nil, "second-evaluates")
+	if err != nil || err2 != nil {
+		return
+	}
+	tok1, err := st1.FinalizeToken(resp1)
+	vAssert(err == nil, "first-run-finalizes-after-second-evaluation")
+	tok2, err2 := st2.FinalizeToken(resp2)
+	vAssert(err2 == nil, "second-run-finalizes")
+	if err == nil {
+		vAssert(t2VerifyToken(issuer.TokenKey(), tok1.Marshal()), "first-run-token-verifies")
+	}
+	if err2 == nil {
+		vAssert(t2VerifyToken(issuer.TokenKey(), tok2.Marshal()), "second-run-token-verifies")
+	}
+	vReach("two-runs")
+}
